@@ -4,6 +4,8 @@
     * `_invalidate` clears every memoised member   (fails while F14a is open: `_components`, `_sim`)
     * `_cpt_add` detaches an overridden component   (fails while F14b is open)
     * `Node.remove` never raises half way           (fails while the failed-remove defect is open)
+    * `remove` / override detach from every node     (C16Tables; a sliced loop breaks `remove_detaches_all_nodes`)
+    * no read-only member mutates a cached object    (C16Tables `shared_cached_objects_not_mutated`)
   While it does not build, the check reports these theorems as broken obligations; they count as
   explained only if the oracle exhibits the corresponding failing history on the real code.
 -/
@@ -28,6 +30,25 @@ theorem fresh_refinement_current (ops : List Op) (hpub : ∀ op ∈ ops, op.isPu
     (i : Nat) (inst : Inst) (hi : (run config World.empty ops).insts[i]? = some inst) (q : String) :
     answer config (run config World.empty ops) i q = answer config (build inst.elts) 0 q :=
   (fresh_refinement config memoised_subset_cleared add_invalidates add_multi_invalidates remove_invalidates override_detaches
+    remove_detaches_all_nodes override_detaches_all_nodes no_query_damages_cache
     ops hpub hok i inst hi).1 q
+
+/-- CURRENT CODE: the generated configuration meets the side conditions of `query_transparent` for every slot -/
+theorem cfg_ok_current : CfgOK config (fun _ => true) := by
+  refine ⟨?_, fun _ _ _ _ => rfl, by rw [no_query_damages_cache]; intro p hp; cases hp⟩
+  intro s _ hk
+  cases hk' : config.kindOf s with
+  | none => simp [hk'] at hk
+  | some k => exact memoised_subset_cleared (s, k) (lookup_mem _ _ _ hk')
+
+/-- CURRENT CODE: a query (of any kind, on any instance) inserted anywhere in an exception-free history of public
+    operations changes no later answer -/
+theorem query_transparent_current (pre post : List Op) (i : Nat) (q : String)
+    (hpub : ∀ op ∈ pre ++ post, op.isPublic) (hok : NoRaise config World.empty (pre ++ post)) (j : Nat) (q' : String) :
+    answer config (run config World.empty (pre ++ .query i q :: post)) j q' =
+      answer config (run config World.empty (pre ++ post)) j q' :=
+  query_transparent config (fun _ => true) cfg_ok_current pre post i q
+    (runOK_of_flags config add_invalidates add_multi_invalidates remove_invalidates override_detaches
+      remove_detaches_all_nodes override_detaches_all_nodes _ _ hpub hok) j q' (fun _ _ => rfl)
 
 end Lcapy.C16
